@@ -2,6 +2,7 @@
 package registry
 
 import (
+	"github.com/junioryono/godi/v4/zzverif/cont"
 	"github.com/junioryono/godi/v4/zzverif/graphh"
 	"github.com/junioryono/godi/v4/zzverif/smoke"
 )
@@ -12,4 +13,7 @@ var Harnesses = map[string]func(){
 	"graphh.H_C06a_Topo":      graphh.H_C06a_Topo,
 	"graphh.H_C19":            graphh.H_C19,
 	"smoke.H_Smoke":           smoke.H_Smoke,
+	"cont.H_Hist":             cont.H_Hist,
+	"cont.H_Build":            cont.H_Build,
+	"cont.H_Order":            cont.H_Order,
 }
